@@ -15,7 +15,10 @@ static struct tl_snap SN0, SO0, SN1;
 static void mk_table(struct pfx_table *t, pfx_update_fp fp)
 {
 	pfx_table_init(t, fp);
+	tl_shape_on = true;
 	struct trie_node *a = tl_template(FAMV, TD, TE);
+
+	tl_shape_on = false;
 	struct trie_node *b = tl_template(OTHV, 0, 1);
 
 	if (FAM == 4) {
